@@ -13,7 +13,7 @@
       is_matching s c ch t           t = None: c is subscribed to channel ch; t = Some p: c is
                                      subscribed to pattern p and p matches ch *)
 From Coq Require Import Sorting.Permutation.
-From Ferrous Require Import Base.Bytes Model.Resp Model.Types Model.PubSub Model.Server Model.Conn
+From Ferrous Require Import Base.Bytes Generated Model.Resp Model.Types Model.PubSub Model.Server Model.Conn
   Proofs.ConnFacts Proofs.PsGlobFacts Proofs.PubSubFacts Proofs.PubSubSrvFacts.
 Open Scope Z_scope.
 
@@ -174,7 +174,8 @@ Proof. exists ps_init, 1, [bs "a"]. repeat split. discriminate. Qed.
                                 as (connection, frame), and the final state
       stream_of d out           what connection d receives
       SrvInv s                  Inv of the manager, and every subscribed id is a live connection
-      open_conn s c             c is a connection that has passed the authentication gate
+      open_conn s c             c is a connection that has passed the authentication gate and is not
+                                inside MULTI;  in_tx s c cn: it is inside MULTI (cn = its record)
       push_frame ch msg (c, t)  ["message", ch, msg] or ["pmessage", p, ch, msg] addressed to c *)
 
 (** 7. the invariant holds along every history of requests, connects, closes and drops *)
@@ -192,8 +193,8 @@ Proof. exact publish_step. Qed.
 (** 9. order.  (a) Streams only grow, in event order: for every split of a history, what a
     connection receives from the first part precedes what it receives from the second.
     (b) From one PUBLISH a connection receives exactly the frames of its matching subscriptions
-    (and the publisher, after them, the reply).  (c) No other request writes to anybody but its
-    issuer.  Hence each subscriber's sequence of messages is the publish order of the matching
+    (and the publisher, after them, the reply).  (c) No other request - except an EXEC, which runs its queued PUBLISHes (14) -
+    writes to anybody but its issuer.  Hence each subscriber's sequence of messages is the publish order of the matching
     messages, whoever the publishers are. *)
 Theorem c14_order : forall now h1 h2 s d,
   stream_of d (fst (sev_run now s (h1 ++ h2))) =
@@ -213,7 +214,8 @@ Proof. exact publish_event_stream. Qed.
 
 Theorem c14_order_other_requests_silent : forall now s c req oracle dct r s' d,
   process_frame_x now s c req oracle = (dct, r, s') ->
-  beq (req_command req) (bs "PUBLISH") = false -> d <> c -> stream_of d dct = [].
+  beq (req_command req) (bs "PUBLISH") = false -> beq (req_command req) (bs "EXEC") = false ->
+  d <> c -> stream_of d dct = [].
 Proof. exact nonpublish_silent. Qed.
 
 (** 10. channel, pattern and payload bytes arrive intact: the client-side decoding of the bytes
@@ -281,6 +283,120 @@ Theorem c14_srv_conservative : forall now s c req oracle,
   process_frame_x now s c req oracle =
   ([], fst (process_frame now s c req oracle), snd (process_frame now s c req oracle)).
 Proof. exact process_frame_x_plain. Qed.
+
+(** ======== transactions (51742a5: pub/sub commands are queued inside MULTI, run at EXEC) ========
+    The history theorems above (7 c14_srv_invariant, 9 c14_order, 12 after-disconnect) quantify over
+    ALL histories of requests, so they already cover MULTI / EXEC / DISCARD / WATCH; what an EXEC
+    itself does is stated here. *)
+
+(** 14. inside MULTI a PUBLISH / (P)SUBSCRIBE / (P)UNSUBSCRIBE (any command but MULTI, EXEC, DISCARD,
+    WATCH, UNWATCH) is only queued: nothing is written to anybody, no subscription changes *)
+Theorem c14_tx_queued_inert : forall now s c cn nm rest oracle,
+  in_tx s c cn -> mem_name (upper (trim nm)) tx_not_queued = false ->
+  process_frame_x now s c (FArray (FBulk nm :: rest)) oracle =
+  ([], FSimple (bs "QUEUED"), set_conn s c (with_tx cn true (c_queue cn ++ [FBulk nm :: rest]) (c_watched cn))).
+Proof. exact queued_inert. Qed.
+
+Theorem c14_tx_pubsub_names_are_queued :
+  forallb (fun n => negb (mem_name n tx_not_queued))
+          [bs "PUBLISH"; bs "SUBSCRIBE"; bs "PSUBSCRIBE"; bs "UNSUBSCRIBE"; bs "PUNSUBSCRIBE"] = true /\
+  forall s c cn, s_pubsub (set_conn s c cn) = s_pubsub s.
+Proof. split; [vm_compute; reflexivity | reflexivity]. Qed.
+
+(** DISCARD, and an EXEC aborted by a WATCH violation, leave it so *)
+Theorem c14_tx_discard_inert : forall now s c cn oracle,
+  in_tx s c cn ->
+  process_frame_x now s c (FArray [FBulk (bs "DISCARD")]) oracle = ([], r_ok, set_conn s c (clear_tx cn)).
+Proof. exact discard_inert. Qed.
+
+Theorem c14_tx_aborted_exec_inert : forall now s c cn oracle,
+  in_tx s c cn -> watch_violated now s cn = true ->
+  process_frame_x now s c (FArray [FBulk (bs "EXEC")]) oracle = ([], FNullArray, set_conn s c (clear_tx cn)).
+Proof. exact exec_aborted_inert. Qed.
+
+(** 15. EXEC runs the queue in order; direct frames (pushed messages) and reply elements come out
+    in queue order, all direct frames being written before the EXEC reply is returned *)
+Theorem c14_tx_exec_runs_queue : forall now s c cn oracle,
+  in_tx s c cn -> watch_violated now s cn = false ->
+  process_frame_x now s c (FArray [FBulk (bs "EXEC")]) oracle =
+  match exec_queue_x now (set_conn s c (clear_tx cn)) c (c_db cn) (c_queue cn) [] [] with
+  | (direct, reps, s2) => (direct, FArray reps, s2)
+  end.
+Proof. exact exec_runs_x. Qed.
+
+Theorem c14_tx_exec_in_queue_order : forall now c parts q s dbi,
+  exec_queue_x now s c dbi (parts :: q) [] [] =
+  match exec_one_x now s c dbi parts with
+  | (d1, r1, s1, dbi1) =>
+      match exec_queue_x now s1 c dbi1 q [] [] with (d, r, s') => (d1 ++ d, r1 ++ r, s') end
+  end.
+Proof. exact exec_queue_x_cons. Qed.
+
+(** 16. at EXEC each queued PUBLISH runs the handler of a direct PUBLISH in the state reached at that
+    point of the queue: same receiver list (c14_delivery), same frames, its count in its slot *)
+Theorem c14_tx_queued_publish_is_direct : forall now s c dbi parts,
+  queued_name parts = bs "PUBLISH" ->
+  exec_one_x now s c dbi parts = match h_publish s parts with (d, r, s') => (d, [r], s', dbi) end.
+Proof. exact exec_one_publish. Qed.
+
+Theorem c14_tx_direct_publish_handler : forall now s c cn nm rest oracle,
+  zlookup c (s_conns s) = Some cn ->
+  (match s_password s with Some _ => true | None => false end) && negb (c_auth cn) = false ->
+  c_intx cn = false -> upper (trim nm) = bs "PUBLISH" ->
+  process_frame_x now s c (FArray (FBulk nm :: rest)) oracle = h_publish s (FBulk nm :: rest).
+Proof. exact direct_publish_handler. Qed.
+
+Theorem c14_tx_queued_publish : forall now s c dbi ch msg,
+  SrvInv s ->
+  exec_one_x now s c dbi [FBulk (bs "PUBLISH"); FBulk ch; FBulk msg] =
+  (map (push_frame ch msg) (publish (s_pubsub s) ch), [FInt (len (publish (s_pubsub s) ch))], s, dbi).
+Proof. exact exec_one_publish_req. Qed.
+
+(** 17. queued (P)SUBSCRIBE / (P)UNSUBSCRIBE run for the connection that sent EXEC; their
+    confirmations - the manager's counts - are elements of the EXEC reply, nothing is written directly *)
+Theorem c14_tx_queued_subscribe : forall now s c dbi parts (chan : bool) names,
+  queued_name parts = (if chan then bs "SUBSCRIBE" else bs "PSUBSCRIBE") ->
+  2 <= len parts -> all_bulk (tl parts) = Some names ->
+  exec_one_x now s c dbi parts =
+  (let kind := if chan then bs "subscribe" else bs "psubscribe" in
+   let res := if chan then subscribe (s_pubsub s) c names else psubscribe (s_pubsub s) c names in
+   ([], map (fun r => ack_frame kind (r_name r) (r_count r)) (fst res), set_pubsub s (snd res), dbi)).
+Proof. exact exec_one_sub. Qed.
+
+Theorem c14_tx_queued_unsubscribe : forall now s c dbi parts (chan : bool),
+  queued_name parts = (if chan then bs "UNSUBSCRIBE" else bs "PUNSUBSCRIBE") ->
+  exec_one_x now s c dbi parts =
+  match h_unsub chan s c parts with
+  | (direct, FNoResponse, s') => ([], map snd direct, s', dbi)
+  | (direct, r, s') => (direct, [r], s', dbi)
+  end.
+Proof. exact exec_one_unsub. Qed.
+
+(** 18. bridge to C07: an EXEC whose queue holds no PUBLISH / (P)SUBSCRIBE / (P)UNSUBSCRIBE / AUTH is
+    the plain executor and writes nothing directly *)
+Theorem c14_tx_plain_exec : forall now s c cn,
+  forallb plain_queued (c_queue cn) = true ->
+  h_exec_x now s c cn = ([], fst (h_exec now s c cn), snd (h_exec now s c cn)).
+Proof. exact h_exec_x_plain. Qed.
+
+(** a transaction end to end: client 1 is subscribed to ch; inside MULTI it queues PUBLISH ch a,
+    SUBSCRIBE x y, PUBLISH x b; nothing is delivered before EXEC; at EXEC it receives message ch a
+    and message x b (it is its own subscriber) BEFORE the EXEC reply [1, confirmations, 1];
+    client 2 (subscribed to the pattern that is a single star) receives both *)
+Example c14_tx_witness :
+  let req l := FArray (map FBulk l) in
+  let h0 := [EConnect 1; EConnect 2; EReq 1 (req [bs "SUBSCRIBE"; bs "ch"]); EReq 2 (req [bs "PSUBSCRIBE"; bs "*"]);
+             EReq 1 (req [bs "MULTI"]); EReq 1 (req [bs "PUBLISH"; bs "ch"; bs "a"]);
+             EReq 1 (req [bs "SUBSCRIBE"; bs "x"; bs "y"]); EReq 1 (req [bs "PUBLISH"; bs "x"; bs "b"])] in
+  let r0 := sev_run 0 (init_server None) h0 in
+  stream_of 2 (skipn 2 (fst r0)) = [] /\
+  stream_of 1 (skipn 2 (fst r0)) = [r_ok; FSimple (bs "QUEUED"); FSimple (bs "QUEUED"); FSimple (bs "QUEUED")] /\
+  let r1 := sev_step 0 (snd r0) (EReq 1 (req [bs "EXEC"])) in
+  stream_of 1 (fst r1) =
+    [msg_frame (bs "ch") (bs "a"); msg_frame (bs "x") (bs "b");
+     FArray [FInt 2; ack_frame (bs "subscribe") (bs "x") 2; ack_frame (bs "subscribe") (bs "y") 3; FInt 2]] /\
+  stream_of 2 (fst r1) = [pmsg_frame (bs "*") (bs "ch") (bs "a"); pmsg_frame (bs "*") (bs "x") (bs "b")].
+Proof. vm_compute. repeat split. Qed.
 
 (** witnesses at the server level: per-subscription delivery (F-14a repaired), self-delivery before
     the reply, confirmations when nothing is subscribed (F-05d repaired) *)
